@@ -38,7 +38,7 @@ from c03_lib import Ref  # noqa: E402
 KINDS = ['file', 'demo:file:mapping', 'demo:mapping:mapping', 'mapping']
 HEX_KINDS = ['hex:file', 'hex:demo:file:mapping', 'hex:demo:mapping:mapping']
 RECORD_CLASSES = [(11, 0), (11, 0), (12, 0), (13, 1), (11, 2), (1, 0), (2, 0), (3, 0), (4, 0), (9, 0), (8, 0),
-                  (9, 2), (14, 1)]
+                  (9, 2), (14, 1), (15, 0), (15, 0)]
 
 
 # =============================================================================== generators
@@ -100,6 +100,8 @@ def gen_storage_case(rng, kind):
         c, a = klass[oid] if c is None else (c, a)
         if c == 1:
             tree = rng.randrange(50)
+        elif c == 15 and rng.random() < 0.35:
+            tree = 13           # the Moody resolver raises AttributeError for this wanted state
         elif rng.random() < 0.3:
             tree = all_formats_tree(rng)
         else:
@@ -201,16 +203,28 @@ def gen_undo_chain_case(rng, kind):
         tid += rng.choice([1, 5])
         ops += ['begin 1 %d' % tid, 'store 1 %d %d %s' % (oid, tids[-1] if tids else 0, r), 'vote 1', 'finish 1']
         tids.append(tid)
+    multi = set()       # transactions written by several undo calls hold several records of the object;
+    #                     undoing THEM undoes every record separately — not generated, not modelled
     for step in range(rng.choice([2, 3, 3, 4])):
         tid += rng.choice([1, 3])
         r = rng.random()
-        if step == 0 and r < 0.6:
+        cand = [t for t in tids[1:] if t not in multi]
+        if step == 0 and r < 0.6 and tids[-1] not in multi:
             undone = tids[-1]                       # the current one: plain copy, back-pointer record
         elif r < 0.85:
-            undone = rng.choice(tids[1:-1])         # an older one: needs the resolver
+            undone = rng.choice([t for t in cand if t != tids[-1]] or cand)    # an older one: needs the resolver
         else:
-            undone = rng.choice(tids[1:])
-        ops.append('undotxn %d %d %d' % (tid, oid, undone))
+            undone = rng.choice(cand)
+        if rng.random() < 0.35 and len(cand) >= 3:
+            # several undos in ONE transaction, newest first (DB.undoMultiple): e.g. the current one (only
+            # a back pointer is staged) and then an older one, which must merge against the staged record
+            us = sorted(rng.sample(cand, rng.choice([2, 2, 3])), reverse=True)
+            if rng.random() < 0.5 and tids[-1] not in us and tids[-1] not in multi:
+                us = [tids[-1]] + us[:2]
+            ops.append('undomulti %d %d %s' % (tid, oid, ' '.join(str(u) for u in us)))
+            multi.add(tid)
+        else:
+            ops.append('undotxn %d %d %d' % (tid, oid, undone))
         tids.append(tid)                            # belief (an UndoError leaves no transaction)
     ops += ['cur %d' % oid, 'load %d' % oid, 'hist %d' % oid]
     return dict(section='undo', kind=kind, ops=ops)
